@@ -70,7 +70,7 @@ CHECKS = {
 
 # dimensions added after the seeded-change waves (DESIGN.md section 6d), appended to the texts above
 EXTRA = {
- "C01": " Also: an unrelated second connection on the same thread, wall-clock time passing during Advance steps (thorough: 5.3 s), io::ErrorKind of injected errors varied; long sessions (30-160 race scenarios on one connection), greeting versions, vectored/stalled writes, events handle dropped; every 4th case under an everything-enabled tracing subscriber (all properties); fz_sim libFuzzer campaign in the thorough tier.",
+ "C01": " Also: an unrelated second connection on the same thread, wall-clock time passing during Advance steps (thorough: 5.3 s), io::ErrorKind of injected errors varied; long sessions (30-160 race scenarios on one connection), greeting versions, vectored/stalled writes, events handle dropped; every 4th case under a tracing subscriber (all properties); fz_sim libFuzzer campaign in the thorough tier.",
  "C02": " Also: one line of 2^k+d bytes (4 KiB-4 MiB) with read boundaries next to its end; payloads tiled from protocol look-alikes.",
  "C03": " Also: receives interrupted/cancelled and resumed while a second connection on the same thread does the same; responses of 65 535-1 000 000 lines in one piece; key families sharing first/last byte and length.",
  "C04": " Also: long sessions with recurring key-rich replies, events receiver not polled (up to 10 000 pending), mixed-width unknown subsystem names; fz_sim campaign in the thorough tier.",
@@ -90,6 +90,27 @@ EXTRA = {
  "C16": " Grouping tags are also passed as Tag::Other(<canonical name>). Each case additionally varies the connection's history; sticker/channel names and values include multi-byte characters.",
  "C17": " Also: transfers of 66 000 (thorough 300 000) requests, earlier callers that gave up mid-transfer, greeting versions, chunk lengths varying mid-transfer, errors on continuation requests, up to 1100 chunks.",
 }
+
+# sixth wave (DESIGN.md section 6g)
+WAVE6 = {
+ "C01": " Since wave 6: in 12 % of the cases the callers' futures are polled by a foreign executor on another OS thread; tracing subscribers at TRACE/DEBUG/INFO/ERROR level.",
+ "C02": " Since wave 6: also the interrupted flavours (transient WouldBlock before every read / pending receive futures dropped) in which the application sends commands from MPD's whole vocabulary (binarylimit, noidle, send_list, ...) after every response and between attempts, and the connection is now and then handed to another thread.",
+ "C04": " Since wave 6: 4100-66 000 distinct field names received before the session's first notification; foreign-thread callers; tracing levels.",
+ "C05": " Since wave 6: foreign-thread callers; tracing levels.",
+ "C06": " Since wave 6: borrowed arguments handed over as sub-slices starting 1-8 bytes into a larger string; plain strings with exactly one special character near either end; part odd_contexts (commands built inside thread-local destructors, re-entrantly from a renderer, during unwinding, after a contained renderer panic must accept the same arguments and send the same bytes); connections whose first send was refused by the transport.",
+ "C07": " Since wave 6: part odd_contexts (see C06): LF/NUL are rejected wherever the command is built.",
+ "C08": " Since wave 6: foreign-thread callers; tracing levels.",
+ "C09": " Since wave 6: part many_names (70 000 and 1.1 M, thorough 4.3 M, distinct field names in one response; a receive that does not return within 240 s is reported as inconclusive, exit 2).",
+ "C10": " Since wave 6: two further receive() calls after the end of the stream must not turn an UnexpectedEof into a clean end or a response; 70 000 (thorough 1.2 M) distinct field names under all five ways of calling receive, cut between two lines; the application talks between attempts.",
+ "C11": " Since wave 6: sub-filters that are rendered by reference, formatted, cloned and compared before construction goes on (FSpec::Used); filter() called twice on List / CountGrouped / Count::group_by (documented overwrite).",
+ "C13": " Since wave 6: typed lists whose reply takes 4 s - 1 h of virtual time with the next list right behind; connections whose first send_list/send was refused at byte 0 (blocking: WouldBlock; async: Pending, future dropped).",
+ "C15": " Since wave 6: rows in which the builder object is rendered / formatted / cloned between construction steps (Find, List, Count, CountGrouped, Add, AlbumArt, StickerFind, Update); TagTypes with the complete tag table (rotated, reversed, minus one, plus a duplicate, one entry as Tag::Other) - reference requests of more than 15 arguments are tokenised without MPD's argument-count limit.",
+ "C18": " Since wave 6: part slow_greeting (REAL time passes between greeting segments: quick 30-150 ms, thorough up to 61 s); complete unasked lines arriving in the same read as the greeting must not be taken for the password verdict.",
+ "C19": " Since wave 6: two fields() iterators alive at once, advanced alternately with find/fields_len/is_empty in between.",
+ "C20": " Since wave 6: vectors, slices, arrays, tuples, Options and Boxes of equal tags/subsystems must be equal and hash alike (Hash::hash_slice), HashSet<Vec<_>> lookups; Rust variant identifiers (queue, StoredPlaylist, AlbumArtist ...) as candidate names.",
+}
+for k, v in WAVE6.items():
+    EXTRA[k] = EXTRA.get(k, "") + v
 
 BUILT = sys.argv[1].split(",") if len(sys.argv) > 1 else []
 
